@@ -44,8 +44,27 @@ fn named(warnings: &[String], marker: &str, name: &str) -> bool {
     warnings.iter().any(|w| w.contains(&key))
 }
 
+/// the warning `Validator::new` gives for a definition that a later one of the same bare name replaces
+pub const REPLACED: &str = "is replaced by a later definition of the same name";
+
 pub fn val_warned(warnings: &[String], name: &str) -> bool {
-    named(warnings, "validating PDU", name)
+    let key = format!("validating PDU {name}:");
+    warnings.iter().any(|w| w.contains(&key) && !w.contains(REPLACED))
+}
+
+/// (module, name) of every definition reported as replaced, sorted
+pub fn replaced_warned(warnings: &[String]) -> Vec<(String, String)> {
+    let mut out: Vec<(String, String)> = warnings
+        .iter()
+        .filter(|w| w.contains(REPLACED))
+        .filter_map(|w| {
+            let name = w.split("validating PDU ").nth(1)?.split(':').next()?.to_string();
+            let module = w.split("The definition in module ").nth(1)?.split(' ').next()?.to_string();
+            Some((module, name))
+        })
+        .collect();
+    out.sort();
+    out
 }
 pub fn gen_warned(warnings: &[String], name: &str) -> bool {
     named(warnings, "generating bindings for", name)
@@ -95,6 +114,7 @@ pub enum Ev {
     E { module: String, name: String, state: String },
     G { module: String, name: String },
     V { name: String },
+    R { module: String, name: String },
 }
 
 pub fn parse_events(ans: &str) -> Result<Vec<Ev>, String> {
@@ -108,6 +128,7 @@ pub fn parse_events(ans: &str) -> Result<Vec<Ev>, String> {
                 ["E", m, n, s] => Ok(Ev::E { module: m.to_string(), name: n.to_string(), state: s.to_string() }),
                 ["G", m, n] => Ok(Ev::G { module: m.to_string(), name: n.to_string() }),
                 ["V", n] => Ok(Ev::V { name: n.to_string() }),
+                ["R", m, n] => Ok(Ev::R { module: m.to_string(), name: n.to_string() }),
                 _ => Err(format!("driver answer `{ans}`")),
             }
         })
@@ -156,6 +177,13 @@ pub fn compare(events: &[Ev], flat: &[(&M, &D)], obs: &Obs, sources: &[Vec<M>]) 
         let k = pred.iter().zip(seen.iter()).take_while(|(a, b)| a == b).count();
         return Some(json!({"what": "emitted sequence differs", "at": k, "model": pred.get(k), "implementation": seen.get(k),
             "model_len": pred.len(), "implementation_len": seen.len()}));
+    }
+    // the definitions reported as replaced by a later one of the same bare name
+    let mut pred_r: Vec<(String, String)> = events.iter().filter_map(|e| match e { Ev::R { module, name } => Some((module.clone(), name.clone())), _ => None }).collect();
+    pred_r.sort();
+    let seen_r = replaced_warned(&obs.warnings);
+    if pred_r != seen_r {
+        return Some(json!({"what": "definitions reported as replaced differ", "model": pred_r, "implementation": seen_r}));
     }
     None
 }
